@@ -1,6 +1,7 @@
 import ExprModel.Proofs.RefineTop
 import ExprModel.Proofs.RefineLoopAll
 import ExprModel.Proofs.RefineExample
+import ExprModel.Proofs.RefineFloats
 /-
 C01 — Compiled evaluation conforms to the language definition.
 
@@ -122,6 +123,18 @@ example (c : Cfg) (ctx : Ctx) : Conforms c (progOf exCompiled) 0 (lsize exCompil
   exact compile_correct_partial exTree {} {} _ _ (fun _ => False) hc (fun _ _ h => h.elim)
     ⟨fun i w h => by simp at h, fun o h => by cases h⟩ ex_floats (progOf exCompiled) [] []
     (by simp [progOf, Compiled.bytes]) (PoolExt.refl _) ex_fits c (fun h => by cases h) (ex_good c) ctx
+
+/-- The same with the float hypotheses as one *computable* check on the tree: `floatsOK n` — float constants
+    arise from float literals only (no float `ConstantNode`, no float-typed integer literal), and no two literals
+    with different bit patterns are `==` (not `0.0` together with `-0.0`).  Every tree the parser produces from
+    source text without ConstExpr substitutions can be tested with it by evaluation. -/
+theorem run_conforms_checked (cfg : CompCfg) (n : Node) (cp : Compiled) (c : Cfg)
+    (hc : compileProgram cfg n = .ok cp) (hfl : floatsOK n = true) (hfit : FitsU16 cp.code)
+    (henv : EnvOK c cfg) (hg : Good (SmallColl c) n) :
+    ∃ N, ∀ fuel, N ≤ fuel → RunAgrees (run c (progOf cp) fuel) (Spec.run (specOf c) cfg.cast n) :=
+  run_conforms_partial cfg n cp _ c hc (floatsOK_spec hfl).1 (floatsOK_spec hfl).2 hfit henv hg
+
+example : floatsOK exTree = true := by decide
 
 /-! ### why `AliasFree` is there: the constant pool identifies floats that are `==`
 
